@@ -1,8 +1,8 @@
 SPECIFICATION SeededSpec
 CONSTANTS
   MaxCommits = 7
-  MaxOps = 4
-  MaxActs = 3
+  MaxOps = 3
+  MaxActs = 2
   EmptyPolicies = {"keep", "all"}
   AllowFinding = TRUE
   Bug = "none"
